@@ -11,7 +11,6 @@ package c17
 //    GetSupportChains, GetAllBatchFees; repeated calls of the real functions must be bit-identical (monitors).
 
 import (
-	"bufio"
 	"encoding/json"
 	"fmt"
 	"math"
@@ -27,7 +26,6 @@ import (
 	"time"
 
 	sdkmath "cosmossdk.io/math"
-	sdk "github.com/cosmos/cosmos-sdk/types"
 
 	crosschaintypes "github.com/functionx/fx-core/v8/x/crosschain/types"
 
@@ -332,6 +330,7 @@ func modelOps(t *testing.T, out *hx.Out, seed int64, g *gen) {
 	}
 
 	// ---- GetSupportChains: sorted, stable across calls
+	out.Reset("models-supportchains")
 	first := crosschaintypes.GetSupportChains()
 	for r := 0; r < 200; r++ {
 		again := crosschaintypes.GetSupportChains()
@@ -352,6 +351,7 @@ func modelOps(t *testing.T, out *hx.Out, seed int64, g *gen) {
 		return
 	}
 	k := g.c.App.EthKeeper
+	out.Reset("models-batchfees")
 	for round := 0; round < hx.N(6, 40); round++ {
 		ctx, _ := g.c.Ctx().CacheContext()
 		nTok := 2 + rng.Intn(12)
@@ -395,6 +395,4 @@ func modelOps(t *testing.T, out *hx.Out, seed int64, g *gen) {
 		out.Count("batchfees")
 		out.Nontrivial(fmt.Sprintf("batchfees:%d", nTok))
 	}
-	_ = sdk.Coin{}
-	_ = bufio.Scanner{}
 }
